@@ -38,6 +38,7 @@ Op ==
   \/ E.op = "fail"    /\ UpstreamFail
   \/ E.op = "recover" /\ UpstreamRecover
   \/ E.op = "remove"  /\ RemoveTile(E.tile)
+  \/ E.op = "backdate" /\ Backdate(E.tile)
 
 ObsOK ==
   /\ \A t \in Tiles : cache'[t].m = E.cache[t][1] /\ cache'[t].v = E.cache[t][2]
